@@ -4,6 +4,7 @@ package main
 // is recorded in creation (dependency) order.
 
 import (
+	"crypto/sha1"
 	"fmt"
 	"go/types"
 	"sort"
@@ -491,17 +492,52 @@ func (ss *Sorts) StrDecls() string {
 	return b.String()
 }
 
-// BoxFn declares (once) the injection of a concrete sort into an opaque interface sort and its partial inverse.
-func (ss *Sorts) BoxFn(from, to *Sort) (string, string) {
-	fn := "box_" + mangle(from.Name) + "_" + mangle(to.Name)
+// BoxFn declares (once) the injection of a concrete type into an opaque interface sort, its partial inverse,
+// and the dynamic-type tag of boxed values.
+func (ss *Sorts) BoxFn(from, to *Sort, goType types.Type) (string, string) {
+	tname := mangle(from.Name)
+	if goType != nil {
+		tname = shortTypeName(goType)
+	}
+	fn := "box_" + tname + "_" + mangle(to.Name)
 	un := "un" + fn
 	key := "boxfn:" + fn
 	if _, ok := ss.byName[key]; !ok {
 		ss.byName[key] = to
-		ss.decls = append(ss.decls, fmt.Sprintf("(declare-fun %s (%s) %s)\n(declare-fun %s (%s) %s)\n(assert (forall ((v %s)) (! (= (%s (%s v)) v) :pattern ((%s v)))))",
-			fn, from.Name, to.Name, un, to.Name, from.Name, from.Name, un, fn, fn))
+		dt := ss.DynTypeFn(to)
+		ss.decls = append(ss.decls, fmt.Sprintf("(declare-fun %s (%s) %s)\n(declare-fun %s (%s) %s)\n(assert (forall ((v %s)) (! (and (= (%s (%s v)) v) (= (%s (%s v)) %s)) :pattern ((%s v)))))",
+			fn, from.Name, to.Name, un, to.Name, from.Name, from.Name, un, fn, dt, fn, ss.StrConst("type:"+tname), fn))
 	}
 	return fn, un
+}
+
+// SprintfFn declares (once) an uninterpreted function standing for fmt.Sprintf with a constant format:
+// equal arguments give equal strings; nothing else is assumed about the text.
+func (ss *Sorts) SprintfFn(format string, args []*Sort) string {
+	h := sha1.Sum([]byte(format))
+	fn := fmt.Sprintf("sprintf_%x", h[:5])
+	var as []string
+	for _, a := range args {
+		fn += "_" + mangle(a.Name)
+		as = append(as, a.Name)
+	}
+	key := "sprintf:" + fn
+	if _, ok := ss.byName[key]; !ok {
+		ss.byName[key] = SStr
+		ss.decls = append(ss.decls, fmt.Sprintf("(declare-fun %s (%s) Str) ; fmt.Sprintf(%q, ...)", fn, strings.Join(as, " "), format))
+	}
+	return fn
+}
+
+// DynTypeFn declares (once) the dynamic type tag function of an opaque interface sort.
+func (ss *Sorts) DynTypeFn(to *Sort) string {
+	fn := "dyntype_" + mangle(to.Name)
+	key := "dynfn:" + fn
+	if _, ok := ss.byName[key]; !ok {
+		ss.byName[key] = to
+		ss.decls = append(ss.decls, fmt.Sprintf("(declare-fun %s (%s) Str)", fn, to.Name))
+	}
+	return fn
 }
 
 // RefTarget returns the pointee sort and the boxed pointer sort of a recursive reference sort.
